@@ -7,7 +7,7 @@
  *   drv_selfcal run TABLE SEED FROM TO
  *       TABLE: text rendering of the configuration table exported by TLC
  *       from SelfCalTable.tla, one row per line:
- *         id type P topo nu lim pt et me
+ *         id type P k topo nu lim pt et me
  *       runs rows FROM..TO-1 (row = line number, 0-based)
  * env: VT_TRACE=<path> (default stdout), SC_TIMEOUT=<seconds per solve>
  *
@@ -21,6 +21,7 @@
 #include "archdep.h"
 #include <assert.h>
 #include "sc_common.h"
+#include "caleq_oracle.h"
 #include "vnacal_new_internal.h"	/* hook declaration only */
 
 /* ------------------------------------------------------------ config row */
@@ -29,6 +30,7 @@ typedef struct cfg {
     int id;
     char type[8];
     int P;
+    int k;			/* smaller dimension; k == P: square */
     char topo[8];
     int nu;			/* unknown + correlated parameters */
     int lim;
@@ -48,9 +50,9 @@ static int read_row(const char *path, int row, cfg_t *c)
     }
     while (fgets(line, sizeof(line), fp) != NULL) {
 	if (n++ == row) {
-	    if (sscanf(line, "%d %7s %d %7s %d %d %d %d %d", &c->id, c->type,
-			&c->P, c->topo, &c->nu, &c->lim, &c->pt, &c->et,
-			&c->me) == 9)
+	    if (sscanf(line, "%d %7s %d %d %7s %d %d %d %d %d", &c->id,
+			c->type, &c->P, &c->k, c->topo, &c->nu, &c->lim,
+			&c->pt, &c->et, &c->me) == 10)
 		ok = 0;
 	    break;
 	}
@@ -365,6 +367,37 @@ static int build_scenario(sc_scn_t *sc, const cfg_t *c, vt_rng_t *rng,
 	}
 	return 0;
     }
+    if (strcmp(c->topo, "RLINE") == 0) {
+	/* rectangular calibration: rich known base on every port pair, and
+	 * nu matched lines from port 1 (always driven and detected) to later
+	 * ports, each with its own unknown reciprocal transmission */
+	const int full16 = sc->type == ETS_T16 || sc->type == ETS_U16;
+	int first_b = sc->P == 2 ? 2 : 2 + vt_below(rng, 2);
+
+	for (int a = 1; a <= sc->P; ++a) {
+	    for (int b = a + 1; b <= sc->P; ++b) {
+		sc_double(sc, rng, a, b, SC_SHORT, SC_OPEN);
+		sc_double(sc, rng, a, b, SC_OPEN, SC_SHORT);
+		sc_double(sc, rng, a, b, SC_MATCH, SC_MATCH);
+		sc_double(sc, rng, a, b, SC_MATCH, SC_SHORT);
+		sc_double(sc, rng, a, b, SC_OPEN, SC_MATCH);
+		sc_through(sc, rng, a, b);
+		for (int k = 0; k < (full16 ? 3 : 1); ++k)
+		    sc_line(sc, rng, a, b,
+			    sc_scalar(sc, rand_gamma(rng, 0.0, 0.5)),
+			    sc_scalar(sc, rand_gamma(rng, 0.3, 0.9)),
+			    sc_scalar(sc, rand_gamma(rng, 0.3, 0.9)),
+			    sc_scalar(sc, rand_gamma(rng, 0.0, 0.5)));
+	    }
+	}
+	for (int i = 0; i < c->nu; ++i) {
+	    int b = c->nu == 2 ? 2 + i : first_b;
+
+	    u[i] = sc_unknown(sc, rng, rand_gamma(rng, 0.4, 0.9), radius, vg);
+	    sc_line(sc, rng, 1, b, SC_MATCH, u[i], u[i], SC_MATCH);
+	}
+	return 0;
+    }
     if (strcmp(c->topo, "PRIOR") == 0) {
 	/* exactly determined error terms; the only information about the
 	 * parameter is its correlation with a known value */
@@ -502,6 +535,51 @@ static int g_timeout = 60;
  * tolerances / limit, solve, read back the parameters and apply to an
  * independent device.  Emits Setup, (LM*), Solve, Params, Apply events.
  */
+static const char *g_tmp = "/tmp";
+
+/*
+ * saved_residual: out->worst = largest scaled residual of the saved error
+ * terms of calibration `name` in the documented M/S equation for a random
+ * device (caleq_oracle's reader and residual; no libvna algebra).
+ */
+static void saved_residual(sc_scn_t *sc, vnacal_t *vcp, const char *name,
+	uint64_t dut_seed, sc_apply_t *out)
+{
+    static cq_terms_t terms;
+    char path[512], why[128];
+    vt_rng_t rng;
+
+    memset(out, 0, sizeof(*out));
+    snprintf(path, sizeof(path), "%s/selfcal-%d.vnacal", g_tmp, (int)getpid());
+    (void)LIB(vnacal_set_dprecision(vcp, 17));
+    out->rv = LIB(vnacal_save(vcp, path));
+    out->err = errno;
+    if (out->rv != 0)
+	return;
+    if (cq_read_saved(path, name, &terms, why, sizeof(why)) != 0) {
+	out->rv = -1;
+	out->err = EBADMSG;
+	(void)unlink(path);
+	return;
+    }
+    (void)unlink(path);
+    vt_seed(&rng, dut_seed);
+    for (int k = 0; k < sc->nf; ++k) {
+	double complex st[SC_MAXP * SC_MAXP], m[SC_MAXP * SC_MAXP];
+	double r;
+
+	for (;;) {
+	    for (int i = 0; i < sc->P * sc->P; ++i)
+		st[i] = ets_cunit_disc(&rng, 0.8);
+	    if (ets_measure(&sc->e[k], st, m) == 0)
+		break;
+	}
+	r = cq_saved_residual(&terms, k, st, m);
+	if (!(r <= out->worst))
+	    out->worst = r;
+    }
+}
+
 static void do_solve(sc_scn_t *sc, const cfg_t *c, vnacal_t *vcp, int pt,
 	int et, uint64_t seed, const char *tag, solve_res_t *res)
 {
@@ -632,17 +710,25 @@ setup_done:
 	    snprintf(name, sizeof(name), "cal-%s", tag);
 	    arv = LIB(vnacal_add_calibration(vcp, name, vnp));
 	    ci = arv < 0 ? -1 : LIB(vnacal_find_calibration(vcp, name));
-	    if (ci >= 0) {
+	    if (ci >= 0 && sc->rows == sc->cols) {
 		sc_apply_dut(sc, vcp, ci, seed * 31 + 7, &res->ap);
+		res->applied = 1;
+	    } else if (ci >= 0) {
+		/* a rectangular calibration cannot be applied: read the
+		 * error terms vnacal_save writes and put them, together
+		 * with the readings and the true S of an independent
+		 * simulated device, into the documented equation */
+		saved_residual(sc, vcp, name, seed * 31 + 7, &res->ap);
 		res->applied = 1;
 	    }
 	    vt_put("{\"e\":\"Apply\",\"tag\":\"%s\",\"added\":%d,\"ret\":%d,"
-		    "\"errno\":\"%s\",\"rec\":%d,\"se\":%d,\"cbn\":%d}", tag,
+		    "\"errno\":\"%s\",\"rec\":%d,\"se\":%d,\"cbn\":%d,"
+		    "\"via\":\"%s\"}", tag,
 		    ci >= 0, res->ap.rv, vt_errname(res->ap.rv == 0 ? 0 :
 			res->ap.err), res->applied && res->ap.rv == 0 &&
 		    res->ap.worst <= 100.0 * et_tol * 10.0 + floor_s,
 		    res->ap.worst > 0 ? (int)floor(log10(res->ap.worst)) : -99,
-		    vt_cb.n_nonwarn);
+		    vt_cb.n_nonwarn, sc->rows == sc->cols ? "apply" : "saved");
 	    vt_end_line();
 	}
     }
@@ -758,12 +844,26 @@ static void run_case(const char *table, uint64_t seed, int row)
     vt_seed(&rng, seed * 1000003ull + (uint64_t)row * 7919ull + 11);
     type = sc_type_by_name(c.type);
     nf = 1 + vt_below(&rng, 3);
-    sc_init(&sc, (ets_type_t)type, c.P, c.P, nf, &rng, 0.6);
+    {
+	/* k < P: rectangular; T types have more columns, the others more
+	 * rows (vnacal_new(3)) */
+	int rows = c.P, cols = c.P;
+
+	if (c.k != c.P) {
+	    if (type >= 0 && ets_is_t((ets_type_t)type))
+		rows = c.k;
+	    else
+		cols = c.k;
+	}
+	sc_init(&sc, (ets_type_t)(type < 0 ? 0 : type), rows, cols, nf, &rng,
+		0.6);
+    }
     sc.ab = vt_below(&rng, 3) == 0;
-    vt_put("{\"e\":\"Cfg\",\"id\":%d,\"ty\":\"%s\",\"p\":%d,\"topo\":\"%s\","
+    vt_put("{\"e\":\"Cfg\",\"id\":%d,\"ty\":\"%s\",\"p\":%d,\"k\":%d,\"r\":%d,"
+	    "\"c\":%d,\"topo\":\"%s\","
 	    "\"nu\":%d,\"lim\":%d,\"pt\":%d,\"et\":%d,\"me\":%d,\"nf\":%d,"
-	    "\"fm\":\"%s\"}", c.id, c.type, c.P, c.topo, c.nu, c.lim, c.pt,
-	    c.et, c.me, nf, sc.ab ? "ab" : "m");
+	    "\"fm\":\"%s\"}", c.id, c.type, c.P, c.k, sc.rows, sc.cols, c.topo,
+	    c.nu, c.lim, c.pt, c.et, c.me, nf, sc.ab ? "ab" : "m");
     vt_end_line();
     if (type < 0 || build_scenario(&sc, &c, &rng, &analytic_shape) != 0) {
 	vt_put("{\"e\":\"Setup\",\"tag\":\"main\",\"ok\":0,\"adds\":0,"
@@ -833,6 +933,8 @@ int main(int argc, char **argv)
     vt_install_crash_handlers();
     if (to != NULL && atoi(to) > 0)
 	g_timeout = atoi(to);
+    if (getenv("SC_TMP") != NULL)
+	g_tmp = getenv("SC_TMP");
     _vnacal_verif_lm_hook = lm_hook;
     if (argc == 6 && strcmp(argv[1], "run") == 0) {
 	uint64_t seed = strtoull(argv[3], NULL, 10);
